@@ -5,9 +5,36 @@ CFG = {
     "exe": "geomv_c11",
     "go_cmd": "c11",
     "stages": ["go:gen", "go:impl", "lean:judge"],
-    "theorems": [T + n for n in []],
-    "trusted_base": [],
-    "assumptions": [],
-    "rule": "",
+    "theorems": [T + n for n in [
+        "C11_init", "C11_sharePoint_iff", "C11_intersects_iff", "C11_search", "C11_split_partition",
+        "C11_insert", "C11_delete_absent", "C11_delete_present", "C11_step", "C11_reachable",
+        "C11_search_reachable", "C11_goHeur_inRange"]],
+    "trusted_base": [
+        "Lean 4.33.0 kernel; axioms of every theorem printed by #print axioms must be within {propext, Classical.choice, Quot.sound}",
+        "model lean/GeomV/C11/Model.lean (functional tree with the stored fields of the Go structs; parent links = recursion path; "
+        "findLeaf + entry removal + condenseTree's upward loop fused into one recursion `delIn`) is tied to /repo/index/rtree/rtree.go "
+        "by the correspondence run: after EVERY operation of every generated history the whole real tree (dumped through the "
+        "`verif` hook: level, leaf flag, entry order, stored boxes, object identity, parent-link audit), Size, Depth, the Delete "
+        "result and the answers to a query batch are compared exactly with the model",
+        "IEEE-754 arithmetic in the heuristics (size differences) is exact on the generated grids (integers / half-integers below 2^53); "
+        "the theorems do not depend on the heuristics at all (arbitrary in-range choice functions)",
+        "Go `==` on interface values is modelled by DecidableEq on object identity (pointers, geom.Point values, *geom.Bounds); "
+        "objects of uncomparable dynamic type (Go would panic in ==) are outside the model",
+        "index/rtree/verif_hook.go (build tag verif, read-only) + harness/cmd/c11 + lean driver + lib/vcheck.py transport faithfully",
+    ],
+    "assumptions": [
+        "1 <= MinChildren and 2 <= MaxChildren (implied by the property's 2 <= min <= max/2)",
+        "object boxes and query boxes contain a point (min <= max) for the 'share a point' reading of geom.go intersect; "
+        "the structural theorems (WF, multiset semantics, no panic) need no assumption on boxes",
+        "Go int fields size/height/level are modelled as Nat (the theorems show they never go below their minimum)",
+    ],
+    "rule": "histories over (min,max) in {(2,4),(2,5),(3,6),(3,7),(4,8),(25,50)} x object kinds {pointer objects, geom.Point values, "
+            "*geom.Bounds} x phases {grow->drain to empty->refill, alternate insert/delete at the capacity boundary, delete "
+            "everything inside a region (a whole subtree) then refill, random mix, duplicates of few objects, deletes of absent "
+            "objects in every state} over pools with coincident boxes, degenerate boxes, clusters, lines, half-integer coordinates; "
+            "query batch: whole plane, point at a corner, touching corner/edge, one unit off, line, disjoint, an object's own box, random. "
+            "One case = one history (every step judged); distinct = distinct history line; class = phase-kind-params-max height reached",
     "timeout": {"quick": 900, "thorough": 3000},
+    "explanation": "SPEC verdicts are computed from Spec.lean on the implementation's own dump and answers (wfNode, Size, stored "
+                   "multiset vs history semantics, Delete result, brute-force search); DIFF = dump/answers differ from the model.",
 }
